@@ -508,9 +508,8 @@ def analyze_batch(recs, exited, lo, hi, main, specs, cfg, classes, textb, nlines
                 problems.append(("crash", "the thread of id %d (tid %d) was killed by %s {%s} (trace line %d)%s; its last observed operations: %s" % (
                     inst.id, inst.tid, sig, info, line,
                     ", in the panic handler entered from the destructor of its unread result" if "X" in marks else "", last or "none")))
-    if faults and main in faults and lo <= len(recs):
-        inside = [r for r in window if r["entry"] <= faults[main][1]]
-        if inside and (hi >= len(recs) or recs[hi - 1]["entry"] >= faults[main][1]):
+    if faults and main in faults and window and window[0]["entry"] <= faults[main][1] and hi >= len(recs):
+        if True:
             problems.append(("crash", "the main thread was killed by %s {%s} during this batch (trace line %d)" % (faults[main][0], faults[main][2], faults[main][1])))
     # ---- events of T, CAS placement, K placement; H's wait events
     for inst in insts.values():
